@@ -270,12 +270,17 @@ impl Serialize for Collected<'_> {
 
 #[kani::proof]
 #[kani::unwind(6)]
-//@ tier=quick class=core cap=900 bounds="Display emitting two write_str pieces, each 0..=2 bytes of well-formed UTF-8 (ASCII or one 2-byte scalar), through core::fmt::write"
+//@ tier=quick class=core cap=900 bounds="Display emitting two write_str pieces (empty or one ASCII byte, then empty or one 2-byte scalar) through core::fmt::write"
 fn c02_collect_str() {
+    // first piece: "" or one ASCII byte; second piece: "" or ONE two-byte scalar (keeps the query small even
+    // when the code under test counts characters, which is what a wrong length prefix would come from)
     let mut s1 = [0u8; 2];
     let mut s2 = [0u8; 2];
     let a = piece(&mut s1);
     let b = piece(&mut s2);
+    kani::assume(a.len() <= 1);
+    kani::assume(b.len() != 1);
+    kani::assume(b.len() == 0 || b.as_bytes()[0] >= 0xC2);
     // the formatted text = a ++ b
     let mut whole = [0u8; 4];
     let mut n = 0;
@@ -305,7 +310,7 @@ fn c02_collect_str() {
     // and it is the spec encoding: varint(byte length) ++ bytes
     assert!(r1[0] as usize == n && r1.len() == n + 1);
     kani::cover!(a.len() == 1 && b.len() == 2, "ASCII piece + 2-byte scalar piece reachable");
-    kani::cover!(n == 4, "two 2-byte pieces reachable");
+    kani::cover!(n == 3, "ASCII byte followed by a 2-byte scalar reachable");
 }
 
 /// 0..=2 bytes of well-formed UTF-8: "", one ASCII byte, two ASCII bytes, or one 2-byte scalar
@@ -320,4 +325,23 @@ fn piece(store: &mut [u8; 2]) -> &str {
     };
     kani::assume(ok);
     unsafe { core::str::from_utf8_unchecked(&store[..len]) }
+}
+
+#[kani::proof]
+#[kani::unwind(12)]
+//@ tier=quick class=core cap=600 bounds="collect_str of CONCRETE multi-byte text (pieces 'a\u{e9}' and '\u{65e5}') preceded by a symbolic u8: byte length prefix, not character count (a concrete companion to c02_collect_str, whose symbolic text makes character-counting code too slow to decide)"
+fn c02_collect_str_multibyte_concrete() {
+    let x: u8 = kani::any();
+    let mut b1 = [0u8; 10];
+    let mut b2 = [0u8; 10];
+    let r1 = postcard::to_slice(&(x, Collected(TwoPiece("a\u{e9}", "\u{65e5}"))), &mut b1).unwrap();
+    let r2 = postcard::to_slice(&(x, "a\u{e9}\u{65e5}"), &mut b2).unwrap();
+    assert!(r1.len() == 8 && r2.len() == 8, "length of the encoded text is not 1 + 1 + 6 bytes");
+    assert!(r1[1] == 6, "length prefix is not the UTF-8 byte length");
+    let mut i = 0;
+    while i < 8 {
+        assert!(r1[i] == r2[i], "collect_str bytes differ from serialize_str of the formatted text");
+        i += 1;
+    }
+    kani::cover!(x == 7, "reached");
 }
